@@ -124,7 +124,21 @@ def pydantic_field_cases():
         yield (f"dataclass Outer(Generic[T]) with inner: Inner[T] (generic pydantic model); Outer[{a}]", src, f"Outer[{a}]", "E", data)
 
 
+def self_type_cases():
+    for a, good, bad in (("int", 1, "s"), ("str", "s", 1), ("List[int]", [1], ["s"])):
+        src = ("from typing import Self\n"
+               "@dataclass\nclass Node(Generic[T]):\n    value: T\n    next: Optional[Self] = None\n    others: List[Self] = field(default_factory=list)\n"
+               f"@dataclass\nclass E:\n    value: {a}\n    next: Optional['E'] = None\n    others: List['E'] = field(default_factory=list)\n")
+        data = []
+        for v0, v1, v2 in itertools.product((good, bad), repeat=3):
+            data.append({"value": v0, "next": {"value": v1, "others": [{"value": v2}]}})
+            data.append({"value": v0, "others": [{"value": v1, "next": {"value": v2}}]})
+        data += [{"value": good}, {"value": bad}, {}]
+        yield (f"dataclass Node(Generic[T]) with next: Optional[Self], others: List[Self]; Node[{a}]", src, f"Node[{a}]", "E", data)
+
+
 FAMILIES = {
+    "self_type": self_type_cases,
     "alias_param_order": alias_cases,
     "initvar": initvar_cases,
     "variadic_only": variadic_only_cases,
